@@ -167,6 +167,11 @@ def _cond(kind, vi):
         return ~Q(Q(a=v) & Q(b=2))
     if kind == 10:
         return Q(Q(a=v)) | Q(Q(b=2), Q(c=3))
+    # negated nodes with a non-default connector, top-level and nested
+    if kind == 11:
+        return ~(Q(a=v) | Q(b=1))
+    if kind == 12:
+        return Q(c=2) & ~(Q(a=v) | Q(b=1))
     return Q(a=v) ^ Q(b=1) if hasattr(Q, 'XOR') else Q(a=v) | Q(b=1)
 
 
@@ -175,7 +180,7 @@ def h_index(cond: int, expr: int, name_i: int, f_kind: int, f_tuple: bool, vi: i
     """Meta.indexes: name or none, ordering prefixes, fields as list/tuple, condition Q trees
     (nested, negated, OR, XOR), include as list/tuple, opclasses, db_tablespace, expressions.
 
-    pre: 0 <= name_i <= 1 and 0 <= f_kind <= 2 and 0 <= cond <= hx.bound(6, 10) and 0 <= vi <= hx.part(2, 3)
+    pre: 0 <= name_i <= 1 and 0 <= f_kind <= 2 and 0 <= cond <= hx.bound(6, 12) and 0 <= vi <= hx.part(2, 3)
     pre: 0 <= inc <= 1 and 0 <= expr <= 3 and (inc == 1 or not inc_tuple) and not (opc and tbs)
     pre: cond > 0 or vi == 0
     pre: (expr == 0 or f_kind == 0) and (f_kind > 0 or expr > 0)
@@ -208,7 +213,7 @@ def h_constraint(kind: int, cond: int, f_tuple: bool, vi: int, defer: int, inc: 
     """Meta.constraints: UniqueConstraint (fields list/tuple, condition, deferrable, include) and
     CheckConstraint (check Q tree); one or two constraints.
 
-    pre: 0 <= kind <= 1 and 0 <= cond <= 10 and 0 <= vi <= 3 and 0 <= defer <= 2 and 0 <= inc <= 1
+    pre: 0 <= kind <= 1 and 0 <= cond <= 12 and 0 <= vi <= 3 and 0 <= defer <= 2 and 0 <= inc <= 1
     pre: (cond > 0 or vi == 0) and (inc == 1 or not inc_tuple)
     pre: (kind == 0 or (defer == 0 and inc == 0 and not f_tuple and cond > 0))
     pre: (defer == 0 or cond == 0)
